@@ -423,6 +423,27 @@ class Normaliser:
             toks = self.unchecked(toks)
             toks = self.bool_ops(toks)
             toks = self.const_uses(toks)
+        elif kind == "static":
+            # N17: `static NAME: [T; N] = [ literals ];`  ->  `pub open spec fn NAME() -> Seq<int> { seq![ literals ] }`
+            i = 0
+            while toks[i].text != "static":
+                i += 1
+            name = toks[i + 1]
+            k = i + 2
+            while toks[k].text != "=":
+                if toks[k].kind == "open":
+                    k = match_close(toks, k)
+                k += 1
+            if toks[k + 1].text != "[" or toks[-1].text != ";" or toks[-2].text != "]":
+                raise NormError("static initialiser is not an array literal")
+            elems = toks[k + 2:-2]
+            for e in elems:
+                if e.kind not in ("num", "punct") or (e.kind == "punct" and e.text != ","):
+                    raise NormError("static table holds a non-literal element")
+            head = mk("pub open spec fn %s ( ) -> Seq < int > { seq ! [" % name.text)
+            head[0].ws = toks[0].ws
+            toks = head + elems + mk("] }")
+            self.note("N17-static-table")
         elif kind == "trait":
             toks = self.strip_quals(toks, "trait")
         elif kind == "struct":
